@@ -246,6 +246,99 @@ def check_decrypt_site(prog, body, blk, rep, RULE='R03.1'):
            loc)
 
 
+def end_of_data_rule(prog, rep, RULE='R03.8'):
+    """"Unaltered archives always open": the footer is found by seek(End(-4)) through the encryption reader, whose End arm converts the tag-aware length of
+    the inner stream into the plaintext length. The writer closes *every* chunk, the last one included, with a tag; a stream whose last chunk is full
+    therefore ends on a multiple of CHUNK_SIZE + TAG_LENGTH and its remainder `len % CHUNK_TAG_SIZE` is 0. Removing "the tag of the last chunk" is
+    right only when that remainder is not 0: the subtraction of TAG_LENGTH from a value computed from the remainder must sit behind a test that
+    excludes 0 (or be `remainder.saturating_sub(TAG_LENGTH)` on the remainder alone)."""
+    from ..inline import inlined_body
+    bs = [b for b in prog.crates['mla'].bodies if b.impl_trait == 'std::io::Seek' and b.name == 'seek' and b.kind != 'Closure' and
+          (b.impl_adt or '').endswith('layers::encrypt::EncryptionLayerInternal')]
+    key0 = RULE + '|mla::<layers::encrypt::EncryptionLayerInternal as std::io::Seek>::seek|'
+    if len(bs) != 1:
+        rep.ob(RULE, False, key0 + 'anchor', 'expected one Seek impl of EncryptionLayerInternal, found %d' % len(bs))
+        return
+    body = inlined_body(prog, bs[0])
+    rep.fn(bs[0])
+    mla = prog.crates['mla']
+    TAG = mla.const_int('crypto::aesgcm::TAG_LENGTH') or 16
+    rems = {}
+    for bl in body.blocks:
+        for st in bl.stmts:
+            if st.kind == 'assign' and st.rv.r == 'binop' and st.rv.j['op'] == 'Rem' and not st.place[1]:
+                k = st.rv.ops[1]
+                if k.kind == 'const' and ((k.const_def() or '').endswith('CHUNK_TAG_SIZE')):
+                    rems[st.place[0]] = bl.idx
+    subs = []
+    for bl in body.blocks:
+        if bl.cleanup:
+            continue
+        for i, st in enumerate(bl.stmts):
+            if st.kind == 'assign' and st.rv.r == 'binop' and st.rv.j['op'].startswith('Sub') and const_eval(body, st.rv.ops[1]) == TAG and st.rv.ops[0].place is not None:
+                subs.append((bl.idx, 'Sub', st.rv.ops[0]))
+        t = bl.term
+        if t.kind == 'call' and t.cmethod in ('checked_sub', 'saturating_sub', 'wrapping_sub', 'overflowing_sub') and len(t.args) == 2 and const_eval(body, t.args[1]) == TAG and t.args[0].place is not None:
+            subs.append((bl.idx, t.cmethod, t.args[0]))
+    rel = []
+    for (bb, how, minuend) in subs:
+        o = origins(body, [minuend.place[0]])
+        rs = [r for r in rems if r in o.locals]
+        if rs:
+            rel.append((bb, how, minuend, rs))
+    if not rems or not rel:
+        rep.ob(RULE, False, key0 + 'anchor', 'End arm anchors not found (remainders by CHUNK_TAG_SIZE: %d, subtractions of TAG_LENGTH from them: %d)' % (len(rems), len(rel)), bs[0].loc())
+        return
+    bad = []
+    for (bb, how, minuend, rs) in rel:
+        e = expr_of(body, minuend)
+        alone = e[0] == 'place' and not e[1][1] and e[1][0] in rs
+        if how == 'saturating_sub' and alone:
+            continue
+        guarded = False
+        for g in body.blocks:
+            si = switch_info(prog, body, g.idx)
+            if not si or si['kind'] != 'bool':
+                continue
+            ce = expr_of(body, si['cond'])
+            if ce[0] != 'binop' or ce[1] not in ('Eq', 'Ne', 'Gt', 'Ge', 'Lt', 'Le'):
+                continue
+            sides = [ce[2], ce[3]]
+            ri = [i for i, x in enumerate(sides) if x[0] == 'binop' and x[1] == 'Rem' or (x[0] == 'place' and not x[1][1] and x[1][0] in rs)]
+            ci = [i for i, x in enumerate(sides) if x[0] == 'const' and x[1] is not None]
+            if len(ri) != 1 or len(ci) != 1:
+                continue
+            if sides[ri[0]][0] == 'binop':
+                k_ = sides[ri[0]][3]
+                if not (k_[0] == 'const' and ((k_[2] or {}).get('def') or '').endswith('CHUNK_TAG_SIZE')):
+                    continue
+            K = sides[ci[0]][1]
+            op = ce[1]
+            if ri[0] == 1:      # const op r  ->  r op' const
+                op = {'Gt': 'Lt', 'Ge': 'Le', 'Lt': 'Gt', 'Le': 'Ge'}.get(op, op)
+            # edge on which r != 0 is known
+            nz = None
+            if op == 'Eq' and K == 0:
+                nz = si['false']
+            elif op == 'Ne' and K == 0:
+                nz = si['true']
+            elif op == 'Gt' and K >= 0:
+                nz = si['true']
+            elif op == 'Ge' and K >= 1:
+                nz = si['true']
+            elif op == 'Lt' and K >= 1:
+                nz = si['false']
+            elif op == 'Le' and K >= 0:
+                nz = si['false']
+            if nz is not None and body.edge_dominates((g.idx, nz), bb):
+                guarded = True
+        if not guarded:
+            bad.append(body.loc(bb))
+    rep.ob(RULE, not bad, key0 + 'last-full-chunk-length', 'TAG_LENGTH is removed from the in-chunk remainder only where that remainder is not 0' if not bad else
+           'seek(End): TAG_LENGTH is subtracted from a length computed from `inner_len %% CHUNK_TAG_SIZE` without excluding a remainder of 0 (%s): for a stream whose last '
+           'chunk is full the computed end is 16 bytes short, the footer length is read at the wrong place and an unaltered archive fails to open' % ', '.join(bad), bs[0].loc())
+
+
 def run(prog, rep, tier):
     mla = prog.crates['mla']
     # ---------------- R03.1
@@ -338,7 +431,7 @@ def run(prog, rep, tier):
         rep.fn(lb)
         from ..inline import inlined_body
         lb = inlined_body(prog, lb)      # the "new cipher + drop the cached data" prologue may be a helper shared by both loaders
-        rte = [b for b in lb.calls() if b.term.cmethod == 'read_to_end' and b.term.ctrait == 'std::io::Read']
+        rte = [b for b in lb.calls() if b.term.cmethod in ('read_to_end', 'read', 'read_exact', 'read_buf') and b.term.ctrait == 'std::io::Read']
         inval = []
         for b in lb.calls():
             t = b.term
@@ -352,10 +445,18 @@ def run(prog, rep, tier):
                 if st.kind == 'assign' and place_fields(st.place)[-1:] == ['chunk_cache'] and not bl.cleanup:
                     inval.append(bl.idx)
         # every path (variant-tracked: an Err of the prologue leaves through `?`) to the chunk read passes one of the emptying sites
-        ok = len(rte) == 1 and bool(inval) and rte[0].idx not in inval and rte[0].idx not in reachable_vs(lb, 0, removed_blocks=inval)
+        rs_ = reachable_vs(lb, 0, removed_blocks=inval)
+        ok = bool(rte) and bool(inval) and not any(r_.idx in rs_ for r_ in rte)
         rep.ob('R03.6', ok, 'R03.6|%s|cache-emptied-before-chunk-read' % lb.nkey, 'chunk_cache is emptied (clear / mem::take / reassignment) before the next chunk is read' if ok else
                'the previous chunk stays in chunk_cache while the next one is read: if that load fails, the cache and the chunk counter disagree and a later seek within '
                '"the current chunk" serves stale plaintext', lb.loc(rte[0].idx) if rte else lb.loc())
+
+    # ---------------- R03.8 the end of the plaintext stream is computed right for a stream whose last chunk is full
+    end_of_data_rule(prog, rep, 'R03.8')
+
+    # ---------------- R03.7 "unaltered archives always open": an intact chunk is read completely before its tag is checked
+    from .c13 import chunk_loads_complete
+    chunk_loads_complete(prog, rep, 'R03.7')
 
     # ---------------- R03.5 a failed tag comparison is an error for the caller of the normal reader (never skipped)
     from .c04 import wrong_tag_swallows
